@@ -408,11 +408,17 @@ func drvNullRefs(r *rand.Rand, n int) [][]Action {
 
 func drvDotLocal(r *rand.Rand, n int) [][]Action {
 	out := [][]Action{}
-	locals := []string{"loc/al", "a.b/c-d", "x", "github.com/u/Repo", "deep/er/path/pkg"}
+	locals := []string{"loc/al", "a.b/c-d", "x", "github.com/u/Repo", "deep/er/path/pkg",
+		// the File's own path as a program may have derived it (from a directory, a module path with a major version, a
+		// dotted or dashed last element): it is a string, compared as a string
+		"example.com/api/v2/", "go-sdk/", "a/b.d/", "x/2024", "a/b.", "a/b-", "UP/Case/", "gopkg.in/yaml.v3"}
 	for i := 0; i < n; i++ {
 		st := &symtab{}
 		L := locals[r.Intn(len(locals))]
 		near := []string{L, L + "/x", "x/" + L, strings.ToUpper(L), strings.ToLower(L), L + "x", L[1:], L + "/", "other/d", "fmt"}
+		if t := strings.TrimRight(L, "/.-"); t != L {
+			near = append(near, t, t, strings.TrimSuffix(L, "/")+"."+"/") // the same path spelled without its last character(s): another package
+		}
 		if i%2 == 1 {
 			// structural look-alikes: the local path below a vendor / internal directory, with a major-version or VCS suffix,
 			// with dot segments or doubled slashes - all of them are other packages
